@@ -30,6 +30,9 @@ var c11Fragments = []struct{ name, src string }{
 	{"ternary", "zqv = 0\nzqy = zqv == 0 ? \"s\" : nil"},
 	{"begin-rescue", "begin\n  zqv = 1\nrescue => zqe\n  zqv = 2\nend"},
 	{"case-when", "zqk = true ? 1 : \"s\"\ncase zqk\nwhen 1\n  zqr = 1\nwhen \"s\"\n  zqr = 2\nelse\n  zqr = nil\nend"},
+	// operator calls on union receivers, both variant orders (the result type is merged from two declarations)
+	{"union-operator", "zqo = true ? \"zz\" : 7\nzqo * 2\nzqi = true ? 7 : \"zz\"\nzqi * 2\nzqf = true ? 1.5 : 2\nzqf + 1"},
+	{"union-method", "zqo = true ? \"zz\" : [1]\nzqo.length\nzqo.first\nzqi = true ? {a: 1} : \"s\"\nzqi.size"},
 }
 
 // dropAndShift removes records on rows (k, k+n] and shifts later rows back by n.
@@ -80,7 +83,7 @@ func dropAndShift(out, file string, k, n int) string {
 func c11(x *ctx) {
 	r := x.run
 	thorough := x.tier == "thorough"
-	r.Rule = "hosts (corpus and generated programs) x fragments (18 self-contained fragments over fresh zq* names: conditionals, blocks, array-literal statement, builtin calls on unions, hash merge, push, loops, modifier while/until/if/unless, ternary, begin/rescue, case/when and case/in) " +
+	r.Rule = "hosts (corpus and generated programs) x fragments (20 self-contained fragments over fresh zq* names: conditionals, blocks, array-literal statement, builtin calls on unions, hash merge, push, loops, modifier while/until/if/unless, ternary, begin/rescue, case/when and case/in) " +
 		"x every statement boundary whose next statement is not a block closer/branch keyword and that is not the end of the file; records outside the fragment's rows must equal the host's records after the row shift; " +
 		"plus appending a whole independent program (all ordered pairs of small corpus programs with disjoint user names). non-trivial = host prints records"
 	r.Assumptions = []string{"statement boundaries come from the harness's conservative line scanner; a boundary directly before end/else/elsif/when/in/rescue/ensure or at end of file is excluded (the fragment would become the last statement of a body)"}
